@@ -55,6 +55,12 @@ func polyClass(name string, j int, p *prg) []fr.Element {
 		for i := range f {
 			f[i] = frFromBig(big.NewInt(int64(p.intn(1000))))
 		}
+	case "bithi", "bitlo": // non-zero exactly where bit j of the index is set / clear: an all-zero half in folding round 7-j
+		for i := range f {
+			if ((i>>uint(j%8))&1 == 1) == (name == "bithi") {
+				f[i] = p.fr()
+			}
+		}
 	case "linear3":
 		for i := range f {
 			f[i] = frFromBig(big.NewInt(int64(3*i + 1)))
